@@ -87,8 +87,24 @@ static void conv_chunk(uint32_t chunk) {
     if (chunk == 1) sample("x in 0x01000000..0x01ffffff: dtot32(t32tod(x)) == x, dtot32(t32tod(x)+k) == x for k in {-2,-1,1,2}");
 }
 
+// histories over threads and message spaces: results must not depend on which M this or another thread used before
+#include <thread>
+static void thread_histories() {
+    const int64_t MS[] = {2048, 8, 6, 3, 1000, 1 << 20};
+    for (int64_t a : MS) for (int64_t b : MS) { if (a == b) continue;
+        std::string key = fmt("thread-history/M=%lld-then-other-thread-M=%lld-then-M=%lld", (long long)a, (long long)b, (long long)a);
+        if (!take(key)) continue; current(key);
+        auto probe = [&](int64_t M, const char *when) { for (uint32_t i = 0; i < 4096; i++) { uint32_t ph = i * 1048583u + 12345u; bool tie; int64_t want = ref::round_mod(ph, M, &tie); int32_t got = modSwitchFromTorus32((Torus32)ph, (int32_t)M);
+            if (!(got == want || (tie && got == (want + M - 1) % M))) { violation(key, fmt("%s: modSwitchFromTorus32(0x%08x, %lld) = %d, nearest integer is %lld", when, ph, (long long)M, got, (long long)want)); return false; }
+            if (approxPhase((Torus32)ph, (int32_t)M) != modSwitchToTorus32(got, (int32_t)M)) { violation(key, fmt("%s: approxPhase(0x%08x, %lld) is not the encoding of %d", when, ph, (long long)M, got)); return false; } } return true; };
+        bool ok = probe(a, "first use"); if (ok) { std::thread t([&] { ok = probe(b, "on a second thread"); }); t.join(); } if (ok) ok = probe(a, "again on the first thread after another thread used another M"); if (ok) probe(b, "then the other M on the first thread");
+        eval(4 * 4096); nontrivial(1); outcome(mix(a, b));
+    }
+    sample("thread-history/M=2048-then-other-thread-M=6-then-M=2048: 4096 phases each step against the 128-bit oracle");
+}
 int main(int argc, char **argv) {
     init(argc, argv);
+    thread_histories();
     std::vector<int64_t> Ms = quick() ? std::vector<int64_t>{2048, 8, 3, 1000}
                                       : std::vector<int64_t>{2, 3, 4, 5, 7, 8, 16, 1000, 1024, 2048, 4096, 32768, (int64_t)1 << 30};
     if (!opt("ms").empty()) { Ms.clear(); std::string v = opt("ms"); size_t q = 0; while (q < v.size()) { size_t e = v.find(',', q); if (e == std::string::npos) e = v.size(); Ms.push_back(atoll(v.substr(q, e - q).c_str())); q = e + 1; } }
